@@ -190,6 +190,16 @@ func runC11(seed uint64) {
 		case "ask":
 			A := askers[ipClass(op.n(0)%3)]
 			dists := c11Distances(op.n(1), rs)
+			type entB struct {
+				bucket int
+				live   bool
+			}
+			tabBefore := map[enode.ID]entB{}
+			for bi, b := range vp.p.VerifTable().Nodes() {
+				for _, bn := range b {
+					tabBefore[bn.Node.ID()] = entB{bi, bn.Live}
+				}
+			}
 			var resp []byte
 			okc, err := w.call("findnodes", 5*time.Second, func() error {
 				var e error
@@ -224,9 +234,18 @@ func runC11(seed uint64) {
 				bucket int
 				live   bool
 			}
+			// the table changes while a request is under way (fruitless queries of a lookup that is still
+			// running remove entries, replacements move up): membership is judged against the union of the
+			// snapshot taken before the request and the one taken after the reply
 			tab := map[enode.ID]ent{}
+			for id, e := range tabBefore {
+				tab[id] = ent{e.bucket, e.live}
+			}
 			for bi, b := range vp.p.VerifTable().Nodes() {
 				for _, bn := range b {
+					if old, ok := tab[bn.Node.ID()]; ok && old.live {
+						continue
+					}
 					tab[bn.Node.ID()] = ent{bi, bn.Live}
 				}
 			}
